@@ -2,7 +2,6 @@
 
 package tls
 
-
 func zzIsGrease(v uint16) bool {
 	return zzAnd(v&0x0f0f == 0x0a0a, v>>8 == v&0xff)
 }
